@@ -4,6 +4,12 @@ workloads run, for each property.  (Orchestration data only.)"""
 MC = "model_checking"
 
 PROPS = {
+    "C06": {"level": MC, "steps": [{"kind": "wl", "name": "c06"}]},
+    "C13": {"level": MC, "steps": [{"kind": "wl", "name": "c13"}]},
+    "C14": {"level": MC, "steps": [{"kind": "wl", "name": "c14"}]},
+    "C15": {"level": MC, "steps": [{"kind": "wl", "name": "c15"}]},
+    "C16": {"level": MC, "steps": [{"kind": "wl", "name": "c16"}]},
+    "C17": {"level": MC, "steps": [{"kind": "wl", "name": "c17"}]},
     "C04": {"level": MC, "steps": [{"kind": "wl", "name": "c04"}]},
     "C05": {"level": MC, "steps": [{"kind": "wl", "name": "c05"}]},
     "C07": {"level": MC, "steps": [{"kind": "wl", "name": "c07"}]},
